@@ -22,8 +22,11 @@ META = {
                   "class) either lives in the service whose setters reset that cache or carries the state in its key; (5) "
                   "get_or_create / reset / the period and degree setters / pickling hooks satisfy their postconditions (cache "
                   "hit returns the stored value without calling the factory, reset(key) removes exactly that key, changing the "
-                  "period clears trajectory, stability info and the whole cache, changing the degree drops the pipeline entries "
-                  "of the old and the new degree).",
+                  "period clears trajectory, stability info and the whole cache, after every degree history hamsys and pipeline are "
+                  "those of the current degree); (6) 'latest result' attributes follow every call, hit or miss "
+                  "(orbit.trajectory after propagate, the manifold's result after compute), apply_correction drops trajectory / "
+                  "stability data even when the period does not change, and center_manifold(d) never hands out an object whose "
+                  "degree is not d (closed operation histories of length 3-5 on the real service objects).",
     "level_note": "NOT decided: the universally quantified statement over all finite operation histories and over objects "
                   "sharing services, and save/load fidelity of compiled objects - those need a different technique (stateful "
                   "exploration). (1) is exhaustive over a bounded grammar, (2)-(4) are syntactic effect analyses; the mutable "
